@@ -194,6 +194,7 @@ func (c06) Case(c *core.Ctx) {
 	}
 
 	// ---- acceptance on derived byte strings ----
+	c.Eval()
 	base, _ := json.Marshal(m)
 	b := append([]byte{}, base...)
 	mut := r.Intn(10)
